@@ -278,3 +278,23 @@ prop('C11',
      level_note='Trusted: Lean kernel, standard axioms, extractor, harness. Modelled not verified: pickle, the stand-alone generator\'s source extraction (exercised end to end).',
      technique='Lean 4 round-trip theorems on the serialisation core + extracted field-table side conditions by decide + four-way differential testing (original / load / cache / stand-alone)',
      design_ref='DESIGN.md §5 C11')
+
+prop('C10',
+     modules=['LarkVerif.Threads', 'LarkVerif.Indenter', 'LarkVerif.Props.C10'],
+     theorems=['Props.C10.lazy_init_safe_under_every_schedule', 'Props.C10.publish_before_merge_is_unsafe', 'Props.C10.indenter_history_independent', 'ThProto.run_fixed_safe'],
+     fingerprints=['lark/lexer.py:BasicLexer._build_scanner', 'lark/lexer.py:BasicLexer.next_token', 'lark/indenter.py:Indenter.process', 'lark/indenter.py:Indenter._process', 'lark/parsers/earley.py:Parser.parse',
+                   'lark/parser_frontends.py:ParsingFrontend.scan'],
+     rule='(a) the order "merge user callbacks / publish self.callback" is read from the current source text of BasicLexer._build_scanner and selects the Lean model variant; all 70 interleavings of two real threads (thorough: plus 400 sampled '
+          'interleavings of three) through the first use of a fresh instance with a user lexer callback are executed with a sys.settrace gate scheduler (gates: read _scanner, assign callback, [merge loop], return of _build_scanner, '
+          'read callback) and compared with the Lean small-step run; every token must carry the callback\'s effect. (b) 4 free-running threads x several rounds on fresh instances (switch interval 1 microsecond) for LALR/Earley configurations. '
+          '(c) random histories of 3-9 calls (parse, lex, scan, parse_interactive; succeeding, failing, generators abandoned after k items; other instances created in between; every fourth history with a stateful Indenter post-lexer) on ONE '
+          'instance, each call compared with the same call on a fresh instance. Non-trivial: schedules that interleave, histories of > 2 calls; distinct by canonical hash.',
+     not_proved=['history independence of the whole instance (search scanner, per-state lexers, PatternRE._width, TreeMatcher cache) has no Lean invariant yet: it is compared call by call against fresh instances',
+                 'atomicity granularity (one attribute read/write under the GIL) is assumed; free-threaded builds and C-level races inside re are outside the model'],
+     assumptions=['attribute reads/writes are atomic under the GIL', 'user callbacks are stateless (the property excludes stateful ones)'],
+     level_text='Theorems: with the publish-once ordering (the ordering found in the current source on every run) every schedule of any number of threads through the lazy scanner/callback initialisation gives every token the user callbacks; '
+                'the publish-before-merge ordering has a concrete failing schedule; the Indenter\'s outcome is independent of earlier streams. The Lean small-step semantics is run against real threads stepped gate by gate through '
+                'every 2-thread interleaving.',
+     level_note='Trusted: Lean kernel, standard axioms, harness (gate scheduler). Modelled not verified: CPython GIL granularity; partial: runtime races outside the modelled attributes are only stress-tested.',
+     technique='Lean 4 invariant proof over all interleavings of a small-step model + exhaustive deterministic scheduling of real threads (sys.settrace gates) + call-history differential testing',
+     design_ref='DESIGN.md §5 C10')
